@@ -8,7 +8,9 @@ integer/bool literals, parameters, local lets, named constants (resolved by the 
 `T::MAX`, unary `! -`, binary `| ^ & << >> + - * == != < <= > >= && ||`, `as T` casts,
 `if c { e } else { e }`, parentheses, tuples, and the methods `.min(e) .max(e)
 .leading_zeros() .wrapping_add/sub/mul(e) .to_bits() .is_sign_positive() .is_sign_negative()`,
-`f64::from_bits(e)`, `u64::from(e)`/`u32::from(e)`…
+`f64::from_bits(e)`, `u64::from(e)`/`u32::from(e)`…, `.trailing_zeros()`; with `newtypes`, methods of a
+one-field tuple struct `struct T(uN)` taking `self` by value (`T(e)`, `x.0`, and calls of
+previously translated methods / associated functions of `T`)
 
 Semantics: uN / iN / usize → `BitVec N` (usize = 64, i64 two's complement; signed comparison and
 `>>` on i64 use the signed BitVec operations); `+ - *` are the wrapping BitVec operations (release
@@ -65,9 +67,10 @@ class Node:
 
 
 class Parser:
-    def __init__(self, toks):
+    def __init__(self, toks, newtypes=None):
         self.t = toks
         self.i = 0
+        self.newtypes = newtypes or {}   # struct name -> inner type (`struct T(u64)`), incl. 'Self'
 
     def peek(self, k=0):
         return self.t[self.i + k] if self.i + k < len(self.t) else ('eof', '')
@@ -95,6 +98,8 @@ class Parser:
                 self.accept(',')
             return ('tuple', items)
         kind, v = self.next()
+        if kind == 'id' and v in self.newtypes:
+            return self.newtypes[v]
         if kind != 'id' or (v not in INT_BITS and v not in ('bool', 'f64')):
             raise Unsupported(f'type {v!r} outside the subset')
         return v
@@ -192,6 +197,8 @@ class Parser:
                     args.append(self.parse_expr())
                     self.accept(',')
                 e = Node('method', recv=e, name=name, args=args)
+            elif self.newtypes and self.peek()[1] == '.' and self.peek(1) == ('num', '0'):
+                self.next(); self.next()     # `x.0` of a one-field tuple struct: the inner value
             else:
                 return e
 
@@ -241,6 +248,11 @@ class Parser:
                         self.accept(',')
                     return Node('assoc_call', ty=v, name=name, args=args)
                 return Node('assoc_const', ty=v, name=name)
+            if self.peek()[1] == '(' and v in self.newtypes:
+                self.next()
+                inner = self.parse_expr()
+                self.expect(')')
+                return Node('newtype_ctor', e=inner, ty=self.newtypes[v])
             if self.peek()[1] == '(':
                 raise Unsupported(f'call to {v}()')
             return Node('var', name=v)
@@ -263,9 +275,25 @@ def bits(ty):
 
 
 class Tr:
-    def __init__(self, consts):
+    def __init__(self, consts, calls=None, newtypes=None):
         self.consts = consts    # name -> (value, type)
         self.pre = []
+        # previously translated functions: ('T', 'name') for `T::name(args)` / ('.', 'name') for
+        # `recv.name(args)` (receiver = first parameter) -> (lean_name, [param types], result type)
+        self.calls = calls or {}
+        self.newtypes = newtypes or {}
+
+    def call(self, key, arg_nodes, env):
+        lean_name, ptys, rty = self.calls[key]
+        if len(arg_nodes) != len(ptys):
+            raise Unsupported(f'arity of {key}')
+        parts = []
+        for a, pty in zip(arg_nodes, ptys):
+            t, ty = self.expr(a, env, pty)
+            if ty != pty:
+                raise Unsupported(f'argument of {key}: {ty} for {pty}')
+            parts.append(t)
+        return '(' + ' '.join([lean_name] + parts) + ')', rty
 
     def lit(self, val, ty):
         return f'{val}#{bits(ty)}'
@@ -297,6 +325,13 @@ class Tr:
             if n.ty in INT_BITS and n.name == 'BITS':
                 return self.lit(INT_BITS[n.ty], 'u32'), 'u32'
             raise Unsupported(f'{n.ty}::{n.name}')
+        if k == 'newtype_ctor':
+            t, ty = self.expr(n.e, env, n.ty)
+            if ty != n.ty:
+                raise Unsupported(f'constructor argument {ty} for {n.ty}')
+            return t, ty
+        if k == 'assoc_call' and (n.ty, n.name) in self.calls:
+            return self.call((n.ty, n.name), n.args, env)
         if k == 'assoc_call':
             if n.ty == 'f64' and n.name == 'from_bits' and len(n.args) == 1:
                 t, ty = self.expr(n.args[0], env, 'u64')
@@ -354,6 +389,8 @@ class Tr:
         return f'(BitVec.setWidth {tb} {t})'
 
     def method(self, n, env, expected):
+        if ('.', n.name) in self.calls:
+            return self.call(('.', n.name), [n.recv] + n.args, env)
         r, rty = self.expr(n.recv, env, expected if n.name in ('min', 'max', 'wrapping_add', 'wrapping_sub', 'wrapping_mul') else None)
         name = n.name
         if name in ('min', 'max') and len(n.args) == 1:
@@ -368,6 +405,8 @@ class Tr:
             return f'({r} {op} {a})', rty
         if name == 'leading_zeros' and not n.args and rty in INT_BITS:
             return f'(BitVec.setWidth 32 (BitVec.clz {r}))', 'u32'
+        if name == 'trailing_zeros' and not n.args and rty in INT_BITS:
+            return f'(BitVec.setWidth 32 (BitVec.ctz {r}))', 'u32'
         if name == 'to_bits' and rty == 'f64':
             return r, 'u64'
         if name == 'is_sign_positive' and rty == 'f64':
@@ -428,6 +467,7 @@ class Tr:
     def block(self, blk, env, expected):
         env = dict(env)
         lets = []
+        pre_start = len(self.pre)
         for s in blk.stmts:
             if s.kind == 'assert':
                 c, _ = self.expr(s.cond, env, 'bool')
@@ -457,7 +497,28 @@ class Tr:
         r, rty = self.expr(blk.result, env, expected)
         for name, term in reversed(lets):
             r = f'(let {name} := {term}; {r})'
+        # side conditions met while translating this block (shift amounts, asserts of inner
+        # blocks) may mention its lets: close them over the lets (re-binding is harmless)
+        for i in range(pre_start, len(self.pre)):
+            c = self.pre[i]
+            for name, term in reversed(lets):
+                if re.search(r'(?<![A-Za-z0-9_])' + re.escape(name) + r'(?![A-Za-z0-9_\'])', c):
+                    c = f'(let {name} := {term}; {c})'
+            self.pre[i] = c
         return r, rty
+
+
+def translate_expr(expr_text, env_types, consts=None, newtypes=None, calls=None, expected=None):
+    """translate one expression; `env_types`: name -> (lean term, type). returns (term, type)"""
+    prs = Parser(tokenize(expr_text), newtypes or {})
+    node = prs.parse_expr()
+    if prs.peek()[0] != 'eof':
+        raise Unsupported(f'trailing tokens after expression: {prs.peek()[1]!r}')
+    tr = Tr(consts or {}, calls, newtypes)
+    out = tr.expr(node, dict(env_types), expected)
+    if tr.pre:
+        raise Unsupported('expression with a side condition')
+    return out
 
 
 def find_fn(text, fn_name):
@@ -475,9 +536,28 @@ def find_fn(text, fn_name):
     return sig, text[i:j]
 
 
-def translate_fn(src_text, fn_name, consts=None, lean_name=None):
-    """returns Lean source: `def <lean_name> (args) : T := …` (+ `<lean_name>_pre` if asserts)"""
+def impl_block(text, struct):
+    """the text of the first inherent `impl <struct> { … }` block"""
+    text = re.sub(r'//[^\n]*', '', text)
+    m = re.search(r'\bimpl\s+' + re.escape(struct) + r'\s*\{', text)
+    if not m:
+        raise Unsupported(f'impl {struct} not found')
+    i = m.end() - 1
+    depth = 1
+    j = i + 1
+    while depth and j < len(text):
+        depth += (text[j] == '{') - (text[j] == '}')
+        j += 1
+    return text[i:j]
+
+
+def translate_fn(src_text, fn_name, consts=None, lean_name=None, newtypes=None, calls=None, sigs=None):
+    """returns Lean source: `def <lean_name> (args) : T := …` (+ `<lean_name>_pre` if asserts).
+    `newtypes`: one-field tuple structs seen as their inner type ('Self' included by the caller);
+    a bare `self` parameter then has the type of `Self`. `calls`: see `Tr`. If `sigs` is a dict,
+    the signature (lean_name, param types, result type) is stored under `fn_name`."""
     consts = consts or {}
+    newtypes = newtypes or {}
     sig, body = find_fn(src_text, fn_name)
     sig = sig.strip()
     depth = 0
@@ -502,21 +582,27 @@ def translate_fn(src_text, fn_name, consts=None, lean_name=None):
             p = p.strip()
             if not p:
                 continue
+            if p == 'self' and 'Self' in newtypes:
+                params.append(('self', newtypes['Self']))
+                continue
             pm = re.match(r'(mut\s+)?([A-Za-z_][A-Za-z0-9_]*)\s*:\s*(.+)$', p)
             if not pm or pm.group(1):
                 raise Unsupported(f'parameter {p!r}')
-            ty = Parser(tokenize(pm.group(3))).parse_type()
+            ty = Parser(tokenize(pm.group(3)), newtypes).parse_type()
             params.append((pm.group(2), ty))
     if not m.group(2):
         raise Unsupported('function without result type')
-    rty = Parser(tokenize(m.group(2))).parse_type()
-    blk = Parser(tokenize(body)).parse_block()
-    tr = Tr(consts)
-    env = {name: (name, ty) for name, ty in params}
+    rty = Parser(tokenize(m.group(2)), newtypes).parse_type()
+    blk = Parser(tokenize(body), newtypes).parse_block()
+    tr = Tr(consts, calls, newtypes)
+    params = [('self_' if name == 'self' else name, ty) for name, ty in params]
+    env = {('self' if name == 'self_' else name): (name, ty) for name, ty in params}
     term, ty = tr.block(blk, env, rty)
     if ty != rty:
         raise Unsupported(f'{fn_name}: result type {rty} vs inferred {ty}')
     lean_name = lean_name or fn_name
+    if sigs is not None:
+        sigs[fn_name] = (lean_name, [ty for _, ty in params], rty)
     args = ' '.join(f'({name} : {lean_ty(ty)})' for name, ty in params)
     out = [f'def {lean_name} {args} : {lean_ty(rty)} :=\n  {term}']
     if tr.pre:
